@@ -82,8 +82,8 @@ Proof. exact agree_example. Qed.
                   key_exists / key_not_found) and an ExpectedPosition with offset < 2^53 and a NON-EMPTY
                   epoch (suppression position_mismatch with the current entry; finding
                   map-cas-empty-epoch otherwise); an unkeyed one carries neither
-       Remove     non-empty key, no idempotency key / ExpectedPosition, channel exists
-                  (finding map-remove-missing-channel)
+       Remove     non-empty key, no idempotency key, channel exists (finding map-remove-missing-channel);
+                  an ExpectedPosition as for Publish (position_mismatch / key_not_found / removal)
        ReadStream Limit < 2^31; the epoch both sides would create is the same string (epochs are
                   compared up to renaming); existing channel: any since when forward
                   (offset + 1 < 2^64), reverse only with 2 <= since <= top + 1 (findings
@@ -93,7 +93,10 @@ Proof. exact agree_example. Qed.
                   (Limit 0, then the Revision must be of the current epoch: finding
                   map-state-limit0-revision) or a single key; missing channel: no key, no Revision
                   (findings map-single-key-missing-channel, map-state-missing-channel-empty-revision)
-       Clear / time passing are outside (stage B). *)
+       Clear      allowed (both sides then create the next epoch from the same string: the Redis-side reuse of
+                  the node id is finding map-clear-epoch-reuse; idempotency keys across a Clear are
+                  outside, finding map-clear-idempotency)
+       key TTL sweeps, Stats and time passing are outside (testing only). *)
 Theorem C23_agree_core_partial : forall cf ops,
   cfg_ok cf = true -> keys_okb (chans ops) = true -> (Z.of_nat (List.length ops) <= mc_size cf)%Z ->
   run_ok cf mm_init ops = true ->
@@ -114,11 +117,12 @@ Definition w_core : list mop :=
    MPublish "a" "k2" (mkMP "" 0 "d3" true 0 "" 7 "if_exists" false (Some (3%N, "N0"))) "N45" 1000;
    rd_state "a" "N5"; MReadState "a" (Some (3%N, "N0")) 2 "" false "N6" "N6"; MReadState "a" (Some (3%N, "zz")) 2 "" false "N6" "N6";
    MReadState "a" None 0 "k1" true "N7" "N7"; MReadState "a" None 0 "" false "N8" "N8";
+   MRemove "a" "k2" (mkMR "" 0 (Some (3%N, "N0"))) "N90" 1000; MRemove "a" "k7" (mkMR "" 0 (Some (3%N, "N0"))) "N91" 1000;
    MRemove "a" "k1" ro "N9" 1000; MRemove "a" "zz" ro "N10" 1000; rd_stream "a" "N11";
    MReadStream "a" (Some (1%N, "N0")) 2 false "N12" "N12"; MReadStream "a" (Some (3%N, "N0")) (-1) true "N13" "N13";
    MReadStream "a" (Some (3%N, "zz")) (-1) false "N13" "N13"; MReadStream "a" None 1 true "N14" "N14";
    rd_stream "b" "N15"; pub "b" "k" "x" "N16"; MReadState "c" None 0 "" false "N17" "N17"; MRemove "b" "k" ro "N18" 1000;
-   rd_state "b" "N19"].
+   rd_state "b" "N19"; MClear "a"; rd_stream "a" "N20"; pub "a" "k1" "again" "N21"; rd_state "a" "N22"].
 Example C23_core_domain_example :
   cfg_ok cfP = true /\ keys_okb (chans w_core) = true /\ run_ok cfP mm_init w_core = true /\
   (Z.of_nat (List.length w_core) <= mc_size cfP)%Z /\
@@ -127,7 +131,11 @@ Example C23_core_domain_example :
     [MUpd 4 "N0" true "key_exists" None; MUpd 4 "N0" true "key_not_found" None;
      MUpd 4 "N0" true "position_mismatch" (Some (3%N, "d3")); MUpd 4 "N0" true "position_mismatch" (Some (3%N, "d3"));
      MUpd 4 "N0" true "position_mismatch" None; MUpd 5 "N0" false "" None] /\
-  nth 18 (mem_map_run cfP w_core) MErr =
+  firstn 2 (skipn 16 (mem_map_run cfP w_core)) =
+    [MUpd 5 "N0" true "position_mismatch" (Some (5%N, "d3")); MUpd 5 "N0" true "position_mismatch" None] /\
+  firstn 3 (rev (mem_map_run cfP w_core)) =
+    [MState [("k1", 1%N, "again", 0%Z)] 1 "N20"; MUpd 1 "N20" false "" None; MStream [] 0 "N20"] /\
+  nth 20 (mem_map_run cfP w_core) MErr =
     MStream [(1%N, "k1", "d1", false); (2%N, "", "d2", false); (3%N, "k2", "d3", false); (4%N, "k1", "d4", false);
              (5%N, "k2", "d3", false); (6%N, "k1", "", true)] 6 "N0".
 Proof. vm_compute. repeat split; try reflexivity; discriminate. Qed.
